@@ -293,8 +293,30 @@ pub fn boundary_and_special_scalars() -> Vec<char> {
 	v.push('\u{7F}');
 	v.push('\u{80}');
 	v.push('\u{9F}');
+	v.extend(byte_complete_scalars());
 	v.sort();
 	v.dedup();
+	v
+}
+
+/// Scalars whose UTF-8 encodings show every possible byte value: each continuation byte
+/// 0x80..=0xBF (after the lead byte 0xC3) and each lead byte 0xC2..=0xF4 (a scanner that tests
+/// bytes through a table or a bit set can single out any one of them).
+pub fn byte_complete_scalars() -> Vec<char> {
+	let mut v: Vec<char> = (0xC0u32..=0xFF).filter_map(char::from_u32).collect();
+	// two-byte leads C2..DF: lead << 6; three-byte leads E0..EF: lead << 12 (E0 needs A0 as second
+	// byte, ED stays below the surrogates); four-byte leads F0..F4
+	v.push('\u{A0}');
+	for lead in 0xC4u32..=0xDF {
+		v.push(char::from_u32((lead & 0x1F) << 6).unwrap());
+	}
+	v.push('\u{800}');
+	for lead in 0xE1u32..=0xEF {
+		v.push(char::from_u32((lead & 0x0F) << 12).unwrap());
+	}
+	for c in [0x10000u32, 0x40000, 0x80000, 0xC0000, 0x100000] {
+		v.push(char::from_u32(c).unwrap());
+	}
 	v
 }
 
@@ -321,6 +343,18 @@ pub fn special_scalar_texts() -> Vec<Vec<u8>> {
 	}
 	for t in ["s://[1:2:3:4:5:6:7:8]/", "s://[1:2:3:4:5:6:1.2.3.4]/", "s://[v1.a]/", "s://[V1f.a:b]/", "s://[v1.x:y]/", "s://[::1.2.3.256]/"] {
 		out.push(t.as_bytes().to_vec());
+	}
+	// every component in turn at the lengths around the block sizes a scanner may work in
+	for n in [7usize, 8, 9, 15, 16, 17, 31, 32, 33, 63, 64, 65, 127, 128, 129, 255, 256, 257] {
+		let k = "k".repeat(n);
+		let k1 = "k".repeat(n - 1);
+		for t in [
+			format!("{k}:a"), format!("{k}://h/p?q#f"), format!("{k1}:"), format!("//{k}/p"), format!("s://{k}@h:1/p"), format!("s://u@{k}:1/p"), format!("s://h:{}/p", "1".repeat(n)),
+			format!("{k}/p"), format!("s:{k}"), format!("s://h/{k}?q#f"), format!("/{k}"), format!("?{k}"), format!("s:p?{k}#f"), format!("#{k}"), format!("s:p?q#{k}"),
+			format!("{k1}é:a"), format!("s:{k1}é"), format!("s:p?{k1}é"), format!("s:p#{k1}é"), format!("//{k1}é/"),
+		] {
+			out.push(t.into_bytes());
+		}
 	}
 	out
 }
